@@ -89,6 +89,8 @@ type massiveScenario struct {
 	preKind  []string
 	verifyState string
 	manyRoots bool
+	invalidName bool
+	bigRoots bool
 }
 
 func (s *massiveScenario) describe(c *Ctx) {
@@ -161,6 +163,35 @@ func genMassiveScenario(c *Ctx, arm string, nMalformMax int) *massiveScenario {
 			}
 			s.forest = append(s.forest, genTree(c, n, fo))
 		}
+	}
+	if validatesNames(s.op) && !fromRoot && c.Chance(1, 10) {
+		// a name that is not a single path element (also as the only line of a block): both
+		// modes must reject it alike
+		bad := []string{"a/b", "..", "x/", "p/q/r", "."}[c.Draw(5)]
+		r := s.forest[c.Draw(len(s.forest))]
+		if len(r.Kids) == 0 || c.Draw(2) == 0 {
+			r.Name = bad
+		} else {
+			r.Kids[c.Draw(len(r.Kids))].Name = bad
+		}
+		s.invalidName = true
+	}
+	if !needsFS(s.op) && !validatesNames(s.op) && !s.manyRoots && c.Chance(1, 12) {
+		// roots that print more than 4 KiB each
+		var pad func(n *MNode)
+		pad = func(n *MNode) {
+			n.Name += "-" + strings.Repeat("w", 600)
+			for _, k := range n.Kids {
+				pad(k)
+			}
+		}
+		for _, r := range s.forest {
+			pad(r)
+			for len(r.Kids) < 7 {
+				r.Kids = append(r.Kids, &MNode{Name: fmt.Sprintf("fill%d-%s", len(r.Kids), strings.Repeat("f", 600))})
+			}
+		}
+		s.bigRoots = true
 	}
 	s.sp = genSpelling(c, arm == "extended")
 	s.doc, s.parts = spell(c, s.forest, s.sp)
